@@ -184,7 +184,7 @@ fn run(ctx: &Ctx) {
         run_batch(ctx, &check, profile, &b, timeout, &judge, &mut l);
         // 3. generated composites per selector
         for (i, a) in ALGOS.iter().enumerate() {
-            let per = ctx.n(if matches!(*a, "siqs" | "auto" | "mpqs" | "qs") { 500 } else { 1200 }, 40_000) as usize;
+            let per = ctx.n(if matches!(*a, "siqs" | "auto" | "mpqs" | "qs") { 1000 } else { 2500 }, 40_000) as usize;
             let per = if profile == "chk" { per / 2 } else { per };
             let strat = case_strategy(a, quick, false);
             let mut cases = ctx.sample_strategy(&check, i as u64, &strat, per);
